@@ -163,21 +163,23 @@ class World:
         if tag == "mo":
             return self.m
         if tag == "dead":
-            return self._dead_handle()
+            return self._dead_handle(o[3])
         raise ValueError(o)
 
-    def _dead_handle(self):
+    def _dead_handle(self, kind="sp"):
         if getattr(self, "_dead", None) is None:
             tmp = self.m.new_space("ZZdead")
-            self._dead = tmp
+            c = tmp.new_cells("zz", "lambda: 0")
+            self._dead = {"sp": tmp, "ce": c}
             delattr(self.m, "ZZdead")
-        return self._dead
+        return self._dead[kind]
 
     def enc_obj(self, v):
         if isinstance(v, Interface):
             impl = v._impl
             if not v._is_valid():
-                return ["dead", [], [], ""]
+                from modelx.core.cells import Cells as _Cells
+                return ["dead", [], [], "ce" if isinstance(v, _Cells) else "sp"]
             if impl.is_model():
                 return ["mo", [], [], ""]
             if isinstance(impl, CellsImpl):
